@@ -54,7 +54,12 @@ YieldAll(v) ==
   ELSE IF t.k = "null" THEN xs ELSE xs \o <<None, t>>
 
 \* positional indexing
-Nth(v, i) == LET xs == Cars(v) IN IF v.k = "cons" /\ i < Len(xs) THEN xs[i + 1] ELSE None
+\* (a vector is indexed by position as well; a list never continues into a vector that is its tail)
+Nth(v, i) ==
+  LET xs == Cars(v) IN
+  IF v.k = "cons" /\ i < Len(xs) THEN xs[i + 1]
+  ELSE IF v.k = "vec" /\ i < Len(v.e) THEN v.e[i + 1]
+  ELSE None
 
 \* association list lookup: the cdr of the first entry that is a pair whose car matches
 FirstIn(S) == CHOOSE i \in S : \A j \in S : i <= j
